@@ -78,9 +78,12 @@ PROPS = {
              "duplicate a target, parent/child coordinate, zero/replace/drop/append/swap proof hashes, wrong hash, wrong tree); "
              "each triple goes to Verify, Pollard.Verify, MapPollard.Verify and VerifyPartialProof; distinct_nontrivial = distinct "
              "accepted triples + distinct mutated triples",
-        strength="refuted(pinned)+witnesses P; mirror(Verify)=code on every call V; accepted => true on every call V; unbounded soundness theorem: stated, not yet proved",
-        level_text="The verifier (calculateHashes, Verify, Pollard.Verify root matching) is mirrored in Gallina; Coq theorems exhibit the "
-                   "false claims the pinned commit accepted (defects D2-D4, now repaired) and that the repaired mirror rejects them. "
+        strength="P: C03_sound - unbounded soundness of the repaired mirror of Verify and Pollard.Verify (free hash algebra, leaves are atoms, <= 2^63 leaves, no axioms), with rejection corollaries; refutation witnesses for the pinned verifier; V: mirror(Verify/Pollard.Verify/MapPollard.verify) = code on every call; accepted => true on every call (oracle), incl. TotalRows-coordinate targets for map forests",
+        level_text="The verifier (calculateHashes, Verify, Pollard.Verify root matching) is mirrored in Gallina and proved SOUND for all "
+                   "inputs in the free hash algebra: if the mirror accepts (hashes, targets, proof) against the roots of the reference "
+                   "forest of any slot list, every claimed hash is the hash of the node at its claimed position (C03_sound, by a "
+                   "parametric soundness lemma for the hashing loop, the structure of the reference layout and the geometry lemmas). "
+                   "Coq theorems also exhibit the false claims the pinned commit accepted (defects D2-D4, repaired). "
                    "Every generated (hashes, targets, proof) triple is run on the code and on the mirror (must agree), and every accepted "
                    "claim is checked against the reference forest by the extracted oracle.",
         technique="Coq mirror of the verifier + refutation witnesses + extracted-oracle soundness check on enumerated/mutated inputs",
